@@ -57,6 +57,21 @@ class C06(Prop):
         strings = ["".join(t) for L in range(0, maxlen + 1) for t in itertools.product(esc_alpha, repeat=L)]
         strings += ["".join(rnd.choice(enc.codepage) for _ in range(rnd.randrange(1, 40))) for _ in range(300 if tier != "thorough" else 6000)]
         n = 0
+        # history in one process: the same characters lowered first as a compressed string / number / character
+        # literal must not change what the quoted string evaluates to afterwards (and the other way round)
+        for s in ["hello", "ab", "a", "zz top", "the quick", "x"]:
+            for other in ("«" + s + "«", "»" + s + "»", "‛" + s[:2].ljust(2), "\\" + s[0]):
+                for dc in (True, False):
+                    n += 1
+                    try:
+                        transpile(other, dict_compress=dc)
+                        text = el.quotify(s, ctx)
+                        ns, c2, stack = rc.fresh_ns(())
+                        err, out = rc.run_code(transpile(text, dict_compress=dc), ns, 3)
+                    except Exception as e:  # noqa
+                        return dict(string=s, lowered_before=other, dict_compress=dc, error=f"{type(e).__name__}: {e}"), n
+                    if err is not None or ns["stack"] != [s]:
+                        return dict(string=s, lowered_before=other, dict_compress=dc, quoted=text, stack=repr(ns["stack"]), error=err), n
         for s in strings:
             text = el.quotify(s, ctx)
             for dc in (True, False, True):
@@ -79,7 +94,7 @@ class C06(Prop):
 
     def bounded(self, W, tier, seed):
         w, n = self.roundtrip_search(tier, seed)
-        return [dict(name="C06/bounded-quote-roundtrip", what="q applied to a string, the quoted text run as a program (dictionary compression off for all strings, on for printable ASCII); the pushed value compared with the original", bound="all strings of length <= 3 (quick) / 4 (thorough) over the escape-relevant alphabet {\\ ` \" ' newline a n x 0 λ}; random code-page strings to length 40", evaluations=n, label="bounded", failures=[w] if w else [])]
+        return [dict(name="C06/bounded-quote-roundtrip", what="q applied to a string, the quoted text run as a program (dictionary compression off for all strings, on for printable ASCII); the pushed value compared with the original; also after other literal kinds with the same characters were lowered earlier in the same process", bound="all strings of length <= 3 (quick) / 4 (thorough) over the escape-relevant alphabet {\\ ` \" ' newline a n x 0 λ}; random code-page strings to length 40", evaluations=n, label="bounded", failures=[w] if w else [])]
 
     def replay(self, W, report, ob):
         if report["key"].endswith("::tokenise"):
